@@ -1419,7 +1419,10 @@ example :
 
 /-! ### which fields are pre-aggregated (known finding tagg-quantile-ignored) -/
 
-/-- Every array `Data._get_score` loads is replaced by its pre-aggregate before it is used —
+/-- (A table read off data.py; what the pre-aggregated arrays CONTAIN, for every kind of field of
+every input, is `C15_multi_field` / `C15_multi_input` in Proofs/C15Multi.lean, exercised by the streams
+agg.data (obs, fcst, member, threshold, quantile) and agg.data2 (obs, fcst, pit, other score, members).)
+Every array `Data._get_score` loads is replaced by its pre-aggregate before it is used —
 observations, forecasts, PIT, other fields, ensemble members, the ensemble behind a threshold
 probability and (since the repair of data.py:543) the ensemble behind a quantile. -/
 theorem C15_fields_partial : ∀ k : Preagg.FieldKind, k.usesPreaggregated = true := by
